@@ -22,6 +22,7 @@ RULE = ("Engine 'expr': a recursive Hypothesis strategy generates pipeline expre
         "providers (identity within tol, resampled shape and physical centre of mass otherwise), mask-converter laws "
         "(extensive / anti-extensive, [0,1], identity below one pixel), currying, and loader.normalize_*. "
         "Non-trivial = depth >= 2 with a reflected operator or an @, or a covariance case with lambda != 1.")
+RULE += (" " + "Also: engine 'ties' (comparisons of every offered operand-kind pair on small-integer images), scalar - mask expressions, every pipeline object evaluated three times with the input image unchanged, shift against scipy for orders 1 / 3 / default and whole-pixel vectors, masks that touch the box faces, binary masks as uint8 / float32, Gaussian boxes that are not whole numbers of pixels.")
 TOLERANCES = {"expression value": "1e-5 relative (booleans / 0-1 masks as truth values)", "covariance": "1e-5 relative",
               "from_gaussian": "1e-5", "rescaled centre of mass": "0.5 px"}
 ASSUMPTIONS = ["parameters that pass through ceil/round/int (kernel radii, structuring-element radii, resampled shapes) are generated in the pixel domain with a margin from the discontinuity",
